@@ -886,15 +886,48 @@ theorem isSetVal_of_not_optional (sd : StructDef) (f : Field) (v : Val)
   unfold isSetVal cmpDflt
   rw [if_neg h]
 
-/-- `IsSet<F>()` of a non-pointer optional field with default `dv`: the value differs from `dv`. -/
+/-- `IsSet<F>()` of a non-pointer optional field with default `dv`: Go's `!=` says the value differs. -/
 theorem isSetVal_default (sd : StructDef) (f : Field) (v dv : Val)
     (hopt : f.req = .optional ∨ sd.kind = .union) (hd : f.dflt = some dv) (hs : dv.scalar = true) :
-    isSetVal sd f v = true ↔ v ≠ dv := by
+    isSetVal sd f v = true ↔ goEq v dv = false := by
   unfold isSetVal cmpDflt
   rw [if_pos hopt, hd]
-  simp only [hs, if_true, Bool.not_eq_true', ne_eq]
-  rw [← Val.beq_iff v dv]
-  cases Val.beq v dv <;> simp
+  simp only [hs, if_true]
+  cases goEq v dv <;> simp
+
+/-- Off the doubles, Go's `==` is equality of values. -/
+theorem goEq_iff_of_not_dbl (v dv : Val) (h : ∀ b, dv ≠ .dbl b) : goEq v dv = true ↔ v = dv := by
+  unfold goEq
+  split
+  · rename_i a b; exact absurd rfl (h b)
+  · exact Val.beq_iff v dv
+
+/-- On doubles it is `dblEq`: equal bits that are not a NaN, or two zeros. -/
+theorem goEq_dbl (a b : Nat) : goEq (.dbl a) (.dbl b) = dblEq a b := rfl
+
+theorem dblEq_iff (a b : Nat) :
+    dblEq a b = true ↔ dblIsNaN a = false ∧ dblIsNaN b = false ∧ ((dblIsZero a = true ∧ dblIsZero b = true) ∨ a = b) := by
+  unfold dblEq
+  cases dblIsNaN a <;> cases dblIsNaN b <;> cases dblIsZero a <;> cases dblIsZero b <;> simp
+
+/-- A NaN equals nothing — so a non-pointer optional double field holding a NaN is always SET. -/
+theorem dblEq_nan_left (a b : Nat) (h : dblIsNaN a = true) : dblEq a b = false := by
+  unfold dblEq; rw [h]; rfl
+
+theorem dblEq_nan_right (a b : Nat) (h : dblIsNaN b = true) : dblEq a b = false := by
+  unfold dblEq; rw [h]; cases dblIsNaN a <;> rfl
+
+/-- +0.0 and -0.0 are equal (in both orders): -0.0 against a 0.0 default is unset. -/
+theorem dblEq_zeros : dblEq 0 9223372036854775808 = true ∧ dblEq 9223372036854775808 0 = true := by
+  constructor <;> decide
+
+/-- Equal doubles that are not NaN are `dblEq`; different non-zero bit patterns are not. -/
+theorem dblEq_refl (a : Nat) (h : dblIsNaN a = false) : dblEq a a = true := by
+  unfold dblEq; rw [h]; simp
+
+theorem dblEq_ne (a b : Nat) (hne : a ≠ b) (hz : dblIsZero a = false ∨ dblIsZero b = false) : dblEq a b = false := by
+  unfold dblEq
+  rcases hz with hz | hz <;> rw [hz] <;> simp [hne]
 
 /-! ### ill-formed values: unions whose set-field count is not one, at any depth -/
 
